@@ -103,6 +103,132 @@ theorem rotation_lossless {α : Type} (size : α → Nat) (max : Nat) (ws : List
   have := readBack_run_writes size max {} ws
   simpa [readBack] using this
 
+/-! ### Rotation, down to the bytes
+
+`rotation_lossless` is about items; here the items are log entries, a file is the concatenation of its formatted entries
+(header entries of `rotateFile` included), `size` is the formatted length (what `sb.nbytes` counts), and reading back
+means decoding those bytes. -/
+
+/-- the bytes of a log file -/
+def fileBytes (f : LFile Entry) : List Char := (f.items.map (·.val)).flatMap format
+
+/-- every entry involved in a sequence of writes: the messages and the header entries of the rotations -/
+def entriesOf (ws : List (Wr Entry)) : List Entry := ws.flatMap fun w => w.msg :: (w.hdrs0 ++ w.hdrs1)
+
+/-- whatever holds of all the entries written holds of every item of every file (nothing else gets into a file) -/
+theorem write_items {α : Type} (Q : α → Prop) (size : α → Nat) (max : Nat) (s : Rot α) (w : Wr α)
+    (hs : ∀ f ∈ s.files, ∀ i ∈ f.items, Q i.val) (hm : Q w.msg)
+    (h0 : ∀ h ∈ w.hdrs0, Q h) (h1 : ∀ h ∈ w.hdrs1, Q h) :
+    ∀ f ∈ (write size max s w).files, ∀ i ∈ f.items, Q i.val := by
+  have happ : ∀ (t : Rot α), (∀ f ∈ t.files, ∀ i ∈ f.items, Q i.val) →
+      ∀ f ∈ (append size t w.msg).files, ∀ i ∈ f.items, Q i.val := by
+    intro t ht f hf i hi
+    unfold append at hf
+    cases hfs : t.files with
+    | nil =>
+      simp only [hfs] at hf
+      exact ht f (by rw [hfs]; exact hf) i hi
+    | cons f0 fs =>
+      simp only [hfs] at hf
+      rw [hfs] at ht
+      simp only [List.mem_cons] at hf
+      rcases hf with rfl | hf
+      · simp only [List.mem_append, List.mem_singleton] at hi
+        rcases hi with hi | rfl
+        · exact ht f0 (by simp) i hi
+        · exact hm
+      · exact ht f (by simp [hf]) i hi
+  have hrot : ∀ (t : Rot α) (now : Nat) (hd : List α), (∀ f ∈ t.files, ∀ i ∈ f.items, Q i.val) → (∀ h ∈ hd, Q h) →
+      ∀ f ∈ (rotate size t now hd).files, ∀ i ∈ f.items, Q i.val := by
+    intro t now hd ht hh f hf i hi
+    simp only [rotate, List.mem_cons] at hf
+    rcases hf with rfl | hf
+    · simp only [List.mem_map] at hi
+      obtain ⟨h, hh', rfl⟩ := hi
+      exact hh h hh'
+    · exact ht f hf i hi
+  have hsb : ∀ (t : Rot α), (∀ f ∈ t.files, ∀ i ∈ f.items, Q i.val) →
+      ∀ f ∈ (sbWrite size max t w).files, ∀ i ∈ f.items, Q i.val := by
+    intro t ht
+    unfold sbWrite
+    split
+    · exact happ _ (hrot t _ _ ht h1)
+    · exact happ _ ht
+  unfold write
+  split
+  · exact hsb _ (hrot s _ _ hs h0)
+  · exact hsb _ hs
+
+theorem run_items {α : Type} (Q : α → Prop) (size : α → Nat) (max : Nat) :
+    ∀ (ws : List (Wr α)) (s : Rot α), (∀ f ∈ s.files, ∀ i ∈ f.items, Q i.val) →
+      (∀ w ∈ ws, Q w.msg ∧ (∀ h ∈ w.hdrs0, Q h) ∧ (∀ h ∈ w.hdrs1, Q h)) →
+      ∀ f ∈ (run size max s (ws.map Op.write)).files, ∀ i ∈ f.items, Q i.val := by
+  intro ws
+  induction ws with
+  | nil => intro s hs _; simpa [run] using hs
+  | cons w ws ih =>
+    intro s hs hw
+    have hw0 := hw w (by simp)
+    simp only [List.map_cons, run, List.foldl_cons, step]
+    exact ih _ (write_items Q size max s w hs hw0.1 hw0.2.1 hw0.2.2) (fun w' hw' => hw w' (by simp [hw']))
+
+/-- entries that take at most half the window: any two of them fit it together -/
+theorem fits_of_small (cap : Nat) : ∀ (es : List Entry), (∀ e ∈ es, 2 * (format e).length ≤ cap) → fits cap es = true := by
+  intro es
+  induction es with
+  | nil => intro _; rfl
+  | cons e es ih =>
+    intro h
+    cases es with
+    | nil => have := h e (by simp); simp [fits]; omega
+    | cons e' es' =>
+      have h1 := h e (by simp)
+      have h2 := h e' (by simp)
+      have := ih (fun x hx => h x (by simp [hx]))
+      simp [fits, this]; omega
+
+/-- **Every file decodes to its entries**: whatever the threshold and the clock, if every entry written (messages and
+rotation headers) is in the domain of the round trip and takes at most half the scanner window, then every log file the
+sequence of writes leaves behind decodes — from its bytes — to exactly the entries that were written to it, in order and
+without an error.  With `rotation_lossless` (the items of the files, headers removed, are the messages, each once, in
+order) this is "after a flush every message logged so far can be read back exactly once and in order across file
+rotations", stated on bytes. -/
+theorem rotated_files_decode (cap max : Nat) (ws : List (Wr Entry))
+    (hwf : ∀ e ∈ entriesOf ws, wf e = true) (hsmall : ∀ e ∈ entriesOf ws, 2 * (format e).length ≤ cap) :
+    ∀ f ∈ (run (fun e => (format e).length) max {} (ws.map Op.write)).files,
+      decode cap (fileBytes f) = (f.items.map (·.val), false) := by
+  intro f hf
+  have hQ := run_items (fun e => wf e = true ∧ 2 * (format e).length ≤ cap) (fun e => (format e).length) max ws {}
+    (by intro f hf; simp at hf)
+    (by
+      intro w hw
+      have hin : ∀ e, e = w.msg ∨ e ∈ w.hdrs0 ∨ e ∈ w.hdrs1 → e ∈ entriesOf ws := by
+        intro e he
+        simp only [entriesOf, List.mem_flatMap]
+        refine ⟨w, hw, ?_⟩
+        simp only [List.mem_cons, List.mem_append]
+        rcases he with rfl | he | he
+        · exact Or.inl rfl
+        · exact Or.inr (Or.inl he)
+        · exact Or.inr (Or.inr he)
+      refine ⟨⟨hwf _ (hin _ (Or.inl rfl)), hsmall _ (hin _ (Or.inl rfl))⟩, ?_, ?_⟩
+      · intro h hh; exact ⟨hwf _ (hin _ (Or.inr (Or.inl hh))), hsmall _ (hin _ (Or.inr (Or.inl hh)))⟩
+      · intro h hh; exact ⟨hwf _ (hin _ (Or.inr (Or.inr hh))), hsmall _ (hin _ (Or.inr (Or.inr hh)))⟩)
+    f hf
+  unfold fileBytes
+  apply decode_concat_partial
+  · intro e he
+    obtain ⟨i, hi, rfl⟩ := List.mem_map.mp he
+    exact (hQ i hi).1
+  · apply fits_of_small
+    intro e he
+    obtain ⟨i, hi, rfl⟩ := List.mem_map.mp he
+    exact (hQ i hi).2
+
+-- the premises are met by real entries: a message and a rotation header, far below half a window of 65536
+set_option maxRecDepth 100000 in
+example : ∀ e ∈ entriesOf [⟨ex2, 5, [ex2], 6, []⟩], wf e = true ∧ 2 * (format e).length ≤ 65536 := by decide
+
 /-- **File names increase**: whatever the clock does (also when it stands still or goes back),
 the stamps of the files are strictly increasing in creation order — also with GC runs in between. -/
 theorem names_increasing {α : Type} (size : α → Nat) (max : Nat) (ops : List (Op α)) :
